@@ -150,7 +150,7 @@ def ev(x, env, beta=None):
         return ev(A.tree(x), env, beta)
     if isinstance(x, A.Num):
         if x.kind == "int":
-            return N.from_int(int(x.text))
+            return N.from_int_literal(int(x.text))
         if x.kind == "float":
             return N.from_float_text(x.text)
         if x.kind == "complex":
@@ -333,6 +333,7 @@ def run(script, includes=None):
             v = ev(m, env, {})
             if not (isinstance(v, V) and v.kind == "int"):
                 raise RefModelError("non-integer mode")
+            N._no_big(v)
             modes.append(v.v)
         pos, kw = args_of(st.args, env, pnames)
         for v in (pos or []) + [x for _, x in (kw or [])]:
@@ -369,7 +370,9 @@ def run(script, includes=None):
                         r.append(RSym(e, dict(env), frozenset(s)))
                         add_params(s)
                     else:
-                        r.append(N.cast(it.vtype, _need_num(ev(e, env, {}))))
+                        el_ = _need_num(ev(e, env, {}))
+                        N._no_big(el_)          # array elements are 64-bit
+                        r.append(N.cast(it.vtype, el_))
                 rows.append(r)
             env[it.name] = RArray(it.vtype, rows)
             if tdm and _PNAME.match(it.name):
